@@ -617,6 +617,12 @@ func suiteCodec(args []string) {
 			v := g.genTop(tn)
 			txt := showVal(reflect.ValueOf(v))
 			obs, out := implEncode(v)
+			// C02: Encode reads its input only - the value prints the same afterwards and the spare capacity behind every
+			// byte string (a sentinel put there by the generator) is untouched
+			if after := showVal(reflect.ValueOf(v)); after != txt || spareTouched(reflect.ValueOf(v), 0) {
+				viol("encode-mutates-input", map[string]interface{}{"what": "Encode modified the value it was given (a field changed, or bytes were written into the spare capacity behind a byte string - memory the caller may be using for something else)",
+					"value_before": firstN(txt, 1500), "value_after": firstN(after, 1500)})
+			}
 			// C13: a failed Encode must not affect what a later Encode writes: re-encode the last value that encoded
 			// successfully (its bytes were taken before the failure) and compare
 			if out == nil && lastGood != nil {
@@ -870,6 +876,48 @@ func checkDelivery(r *rand.Rand, rep *Report, tn string, b []byte, ref decodeRes
 	if strings.HasPrefix(res.obs, "ok") && !strings.HasPrefix(implDecode(tn, b[:cut]).obs, "ok") {
 		viol("ioerr-accepted", map[string]interface{}{"type": tn, "bytes": hexBytes(b[:cut])})
 	}
+}
+
+// spareTouched: is a byte of the spare capacity behind some []byte in the value no longer the generator's sentinel?
+func spareTouched(v reflect.Value, depth int) bool {
+	if depth > 14 || !v.IsValid() {
+		return false
+	}
+	switch v.Kind() {
+	case reflect.Ptr, reflect.Interface:
+		if v.IsNil() {
+			return false
+		}
+		return spareTouched(v.Elem(), depth+1)
+	case reflect.Slice:
+		if v.Type() == tBytes {
+			if v.IsNil() || v.Cap() <= v.Len() {
+				return false
+			}
+			full := v.Slice3(0, v.Len(), v.Cap()).Slice(0, v.Cap()).Bytes()
+			for i := v.Len(); i < len(full); i++ {
+				if full[i] != spareSentinel {
+					return true
+				}
+			}
+			return false
+		}
+		for i := 0; i < v.Len(); i++ {
+			if spareTouched(v.Index(i), depth+1) {
+				return true
+			}
+		}
+	case reflect.Struct:
+		if v.Type() == tTime {
+			return false
+		}
+		for i := 0; i < v.NumField(); i++ {
+			if spareTouched(v.Field(i), depth+1) {
+				return true
+			}
+		}
+	}
+	return false
 }
 
 func make1s(n int) []int {
